@@ -96,7 +96,10 @@ class Check(PropertyCheck):
                   "(connects_exactly_requested both directions) and connects_to_requested_text (the stored host is hostText of "
                   "the requested address; textV4_roundtrip/textV4_injective: the dotted quad reads back to the 4 bytes; "
                   "textDomain_ascii: ASCII names are stored byte for byte; textV6_compresses_leftmost_longest_zero_run: RFC 5952 "
-                  "§4.2 run choice for every address); method_selection (every offered-method list), greeting_incomplete_silent; "
+                  "§4.2 run choice for every address; textV6_reads_back / textV6_injective / textV4_reads_back_ipaddress / "
+                  "connects_to_requested_ip: for EVERY 16-byte address the stored IPv6 text, read by C22's transcription of "
+                  "CPython ipaddress.ip_address, is the IPv6 address with exactly the requested 128 bits, no scope — so the "
+                  "text determines the address); method_selection (every offered-method list), greeting_incomplete_silent; "
                   "reply_wellformed, reject_codes, other_commands_rejected / bind_and_udp_associate_rejected, reject_closes; "
                   "after_request_relayed_once_in_order; constants_match_code (SOCKS5_* constants regenerated from modes.py). "
                   "The model is tied to the real layer by differential runs (state, buffer, every command in order, the host TEXT "
@@ -104,10 +107,11 @@ class Check(PropertyCheck):
                   "segmented / deferred-completion delivery.")
     level_note = ("trusted: Lean kernel; hand-written model tied differentially (not verified) to modes.Socks5Proxy, "
                   "DestinationKnown.finish_start and Layer's pause/replay. The address text is now inside the model (the harness no "
-                  "longer renders it); what is proved about it: IPv4 and ASCII names read back exactly, IPv6 zero-run choice meets "
-                  "RFC 5952 — that the IPv6 text as a whole reads back to the 16 bytes is NOT proved, it is checked on the "
-                  "implementation by the oracle (ipaddress.IPv6Address(host) == requested, all 256 zero/non-zero word patterns, "
-                  "embedded-IPv4 forms, every hex width). The credentials handed to the socks5_auth hook are compared after the "
+                  "longer renders it); what is proved about it: IPv4, IPv6 and ASCII names read back exactly (IPv4/IPv6 with "
+                  "C22.parseIp, the Lean transcription of CPython 3.12 ipaddress.ip_address that C22's own check ties to the "
+                  "interpreter; the proof goes over every position of the compressed zero run, the two embedded-IPv4 forms and "
+                  "the uncompressed form), and the IPv6 zero-run choice meets RFC 5952. The oracle additionally checks "
+                  "ipaddress.IPv6Address(host) == requested on the implementation. The credentials handed to the socks5_auth hook are compared after the "
                   "harness applies bytes.decode('utf-8','backslashreplace') to the model's raw bytes (not modelled). The position "
                   "of the child's Start event is not compared (NextLayer replays it on first data); a client EOF given to a still "
                   "undecided NextLayer is answered by NextLayer's own CloseConnection, which the harness attributes to the child. "
@@ -117,9 +121,11 @@ class Check(PropertyCheck):
                   "followed by 8 more bytes, the RFC 1929 sub-negotiation version byte is not checked, a wrong version is only "
                   "rejected once 2 bytes arrived and a bad request header once 5 bytes arrived (until then 'pending' is accepted), "
                   "any non-zero REP (or none) for a bad request VER / RSV, any of REP 1,3,4,5,6 for a failed connect, and closing "
-                  "after client EOF during an incomplete handshake is not demanded. No case is ever skipped (no Skip()), "
+                  "after client EOF during an incomplete handshake is not demanded; an incomplete bad header followed by client EOF may "
+                  "be closed without a reply (round 4 corrected the oracle here: it used to demand REP 07 for 05 05 + EOF, a "
+                  "header it otherwise allows to stay unanswered until 5 bytes arrived). No case is ever skipped (no Skip()), "
                   "model_lines never abstains, and known() recognises nothing (no recorded finding).")
-    technique = "Lean 4 proof (Incremental/Lawful instance, parser inversion, simulation of the deferred machine) + differential correspondence through world.py"
+    technique = "Lean 4 proof (Incremental/Lawful instance, parser inversion, simulation of the deferred machine, inet_ntop text read back with the ipaddress transcription) + differential correspondence through world.py"
     rule = ("streams = greeting [+ RFC1929 auth] + request + trailing data, built from a grammar (70%), with one-field "
             "mutations (wrong version at each stage, 0 methods, missing method, CMD/RSV/ATYP variants, domain length 0/255, "
             "truncation at every offset) (20%) and raw bytes (10%); field sizes up to the 255 limits (methods, user, password, domain); "
@@ -171,6 +177,12 @@ class Check(PropertyCheck):
         assert self.against_reference(hs, pend, ref) == []
         assert self.against_reference(hs, dict(pend, sent="050005000001000000000000"), ref), "early success reply must be flagged"
         assert self.against_reference(hs, dict(pend, child="41"), ref), "relaying without handshake must be flagged"
+        # incomplete bad header + client EOF: closing without a reply is accepted, anything else is not
+        hse = dict(hs, eof=1)
+        assert self.against_reference(hse, dict(pend, closed=True), ref) == []
+        assert self.against_reference(hs, dict(pend, closed=True), ref), "closing a merely incomplete handshake without EOF must be flagged"
+        assert self.against_reference(hse, dict(pend, closed=True, sent="050005000001000000000000"), ref), "success reply at EOF must be flagged"
+        assert self.against_reference(hse, dict(pend, closed=True, child="41"), ref), "relaying at EOF must be flagged"
         full = dict(base, data_hex="0501000502000100")    # 5 header bytes there: rejection is due
         ref2 = self.reference(full)
         assert ref2["kind"] == "reject" and not ref2["may_pend"]
@@ -446,7 +458,12 @@ class Check(PropertyCheck):
         # not connected: nothing may reach the next layer, no connection unless the request was complete and valid
         if o["child"] != "" or o["child_close"] or o["phase"] == "relay":
             fails.append(f"bytes/events reached the next layer without a completed handshake: {o}")
-        if kind == "pending" or (kind == "reject" and ref["may_pend"] and not o["closed"]):
+        # a defect visible in a still incomplete message may be left pending (see level_note); if the client then
+        # hangs up, closing without a reply is the same leniency as for any other incomplete handshake at EOF
+        # (before round 4 this case — incomplete bad header + client EOF — was wrongly sent to the reject branch,
+        #  which demanded an error reply for a header the oracle itself allows to stay unanswered)
+        eof_while_pending = bool(case.get("eof")) and o["closed"] and sent == pre
+        if kind == "pending" or (kind == "reject" and ref["may_pend"] and (not o["closed"] or eof_while_pending)):
             if sent != pre:
                 fails.append(f"incomplete handshake: sent {sent.hex()} expected {pre.hex()}")
             if o["opens"] or o["addr"] is not None:
